@@ -30,6 +30,8 @@ pub enum Material {
     CorruptInput(u32),
     /// truncate the ciphertext to this fraction (per mille)
     TruncatedInput(u32),
+    /// append this many bytes after the final chunk
+    ExtendedInput(u32),
 }
 
 #[derive(Serialize, Deserialize, Clone, Debug, PartialEq)]
@@ -64,6 +66,15 @@ pub struct Scn {
     pub prior_output_len: Option<usize>,
     /// the decoy entry of the keyring has a mistyped checksum (well-formed, parses, unusable)
     pub decoy_bad_checksum: bool,
+    /// names of the input and output files in the sandbox (command words, option look-alikes ...)
+    #[serde(default)]
+    pub in_name: Option<String>,
+    #[serde(default)]
+    pub out_name: Option<String>,
+    /// sender absent from the keyring, and chosen so that simple folds of its encoded key (XOR of
+    /// all bytes, byte sum, first and last byte) collide with the first keyring entry's
+    #[serde(default)]
+    pub lookalike_sender: bool,
 }
 
 pub struct B1;
@@ -74,6 +85,36 @@ pub struct World {
     pub pws: [String; 3],
     pub salts: [[u8; 32]; 3],
     pub file_pw: String,
+}
+
+/// A private key whose encoded public key (32 bytes + 4 checksum bytes) agrees with `target`
+/// under one simple fold: XOR of all bytes, byte sum mod 256, first byte, or last byte.
+pub fn lookalike_key(target_pk: &[u8; 32], seed: u64, mode: u8) -> [u8; 32] {
+    fn enc(pk: &[u8; 32]) -> Vec<u8> {
+        let mut v = pk.to_vec();
+        v.extend_from_slice(&rp::sha256(pk)[..4]);
+        v
+    }
+    let t = enc(target_pk);
+    let fold = |v: &[u8]| -> (u8, u8, u8, u8) { (v.iter().fold(0u8, |a, b| a ^ b), v.iter().fold(0u8, |a, b| a.wrapping_add(*b)), v[0], v[35]) };
+    let tf = fold(&t);
+    let mut r = Rng::new(seed ^ 0x100ca11c);
+    let mut best = r.arr32();
+    for _ in 0..6000 {
+        let sk = r.arr32();
+        let f = fold(&enc(&rp::x25519_base(&sk)));
+        let hit = match mode % 4 {
+            0 => f.0 == tf.0,
+            1 => f.1 == tf.1,
+            2 => f.2 == tf.2,
+            _ => f.3 == tf.3,
+        };
+        if hit {
+            best = sk;
+            break;
+        }
+    }
+    best
 }
 
 pub fn world(seed: u64) -> World {
@@ -183,11 +224,12 @@ impl Family for B1 {
         "b1"
     }
     fn properties(&self) -> &'static [&'static str] {
-        &["C12", "C07", "C08"]
+        &["C12", "C07", "C08", "C05"]
     }
     fn budget(&self, tier: Tier, p: &str) -> u64 {
         let q = match p {
             "C12" => 160,
+            "C05" => 60,
             _ => 30,
         };
         q * match tier {
@@ -210,13 +252,11 @@ impl Family for B1 {
                 (_, 0) => Material::WrongPassword,
                 (Op::Encrypt, 1) | (Op::Decrypt, 1) => Material::UnknownName,
                 (_, 2) => Material::EnvPassUnset,
-                (Op::Decrypt, _) | (Op::PassDecrypt, _) => {
-                    if rng.chance(2, 3) {
-                        Material::CorruptInput(rng.below(1000) as u32)
-                    } else {
-                        Material::TruncatedInput(rng.below(1000) as u32)
-                    }
-                }
+                (Op::Decrypt, _) | (Op::PassDecrypt, _) => match rng.below(4) {
+                    0 | 1 => Material::CorruptInput(rng.below(1000) as u32),
+                    2 => Material::TruncatedInput(rng.below(1000) as u32),
+                    _ => Material::ExtendedInput(1 + rng.below(40) as u32),
+                },
                 _ => Material::WrongPassword,
             }
         };
@@ -239,6 +279,10 @@ impl Family for B1 {
                 wirings.push(Wiring { in_file: m & 1 == 1, stdin_pipe: rng.chance(1, 2) && len <= 60000, out_opt: m & 2 == 2, keyring_opt: m & 4 == 4, long: m & 8 == 8, alias: m & 16 == 16, opts_first: rng.chance(1, 2) });
             }
         }
+        // a third of the scenarios: a valid decryption of a file from a stranger whose encoded key
+        // resembles a keyring entry's
+        let lookalike_sender = rng.chance(1, 3);
+        let (op, material) = if lookalike_sender { (Op::Decrypt, Material::Valid) } else { (op, material) };
         let sender_pos = match rng.below(3) {
             0 => SenderPos::First,
             1 => SenderPos::Last,
@@ -252,6 +296,9 @@ impl Family for B1 {
             wirings,
             seed: rng.next_u64(),
             repeat_os_rng: rng.chance(1, 3),
+            in_name: if rng.chance(1, 4) { Some((*rng.pick(&["enc", "dec", "pass", "gen", "key", "password", "decrypt", "-t", "a b.bin", "ünï.bin"])).to_string()) } else { None },
+            out_name: if rng.chance(1, 6) { Some((*rng.pick(&["enc", "dec", "pass", "out put", "encrypt"])).to_string()) } else { None },
+            lookalike_sender,
             prior_output_len: if rng.chance(1, 3) { Some(len + 200 + rng.usize_below(100000)) } else { None },
             decoy_bad_checksum: rng.chance(1, 3),
         }
@@ -259,8 +306,16 @@ impl Family for B1 {
 
     fn execute(&self, s: &Scn) -> RunOut {
         let mut out = RunOut::default();
-        out.props = vec!["C12", "C07", "C08"];
-        let w = world(s.seed % 16); // small pool of key worlds: the reference scrypt cache hits
+        out.props = vec!["C12", "C07", "C08", "C05"];
+        let mut w = world(s.seed % 16); // small pool of key worlds: the reference scrypt cache hits
+        let mut sender_pos = s.sender_pos.clone();
+        if s.lookalike_sender && s.op == Op::Decrypt {
+            // the real sender is a stranger whose encoded key resembles a keyring entry's (carol's)
+            sender_pos = SenderPos::Absent;
+            let carol_pk = rp::x25519_base(&w.sks[2]);
+            w.sks[0] = lookalike_key(&carol_pk, s.seed, ((s.seed >> 8) % 2) as u8);
+        }
+        let s = &Scn { sender_pos, ..s.clone() };
         let pt = s.plain.bytes();
         let pubs: Vec<[u8; 32]> = w.sks.iter().map(rp::x25519_base).collect();
         let mut th: u64 = 0;
@@ -293,6 +348,11 @@ impl Family for B1 {
                 let n = (pm as usize * input.len() / 1000).min(input.len().saturating_sub(1));
                 input[..n].to_vec()
             }
+            Material::ExtendedInput(n) => {
+                let mut v = input;
+                v.extend_from_slice(&crate::rng::fill(n as usize, s.seed ^ 0xe47));
+                v
+            }
             _ => input,
         };
         let valid = s.material == Material::Valid;
@@ -307,11 +367,24 @@ impl Family for B1 {
         for (k, (wi, ent)) in runs.iter().enumerate() {
             let sb = Sandbox::new("b1");
             sb.write("keyring.txt", kr_text.as_bytes());
-            sb.write("input.bin", &input);
-            if let (Some(n), true) = (s.prior_output_len, wi.out_opt) {
-                sb.write("output.bin", &crate::rng::fill(n, s.seed ^ 0x01d));
+            let in_name = s.in_name.clone().unwrap_or_else(|| "input.bin".to_string());
+            let mut out_name = s.out_name.clone().unwrap_or_else(|| "output.bin".to_string());
+            if out_name == in_name {
+                out_name.push_str(".out");
             }
-            let mut inv = build_inv(s, &w, wi, "input.bin", "output.bin");
+            // a file argument that starts with '-' would be an option: such names are only used on stdin
+            let wi = &{
+                let mut w2 = wi.clone();
+                if in_name.starts_with('-') {
+                    w2.in_file = false;
+                }
+                w2
+            };
+            sb.write(&in_name, &input);
+            if let (Some(n), true) = (s.prior_output_len, wi.out_opt) {
+                sb.write(&out_name, &crate::rng::fill(n, s.seed ^ 0x01d));
+            }
+            let mut inv = build_inv(s, &w, wi, &in_name, &out_name);
             inv.entropy_seed = *ent;
             if let Stdin::Pipe(_) = inv.stdin {
                 inv.stdin = Stdin::Pipe(input.clone());
@@ -328,7 +401,7 @@ impl Family for B1 {
                     continue;
                 }
             };
-            let output: Option<Vec<u8>> = if wi.out_opt { sb.read("output.bin") } else { Some(fin.stdout.clone()) };
+            let output: Option<Vec<u8>> = if wi.out_opt { sb.read(&out_name) } else { Some(fin.stdout.clone()) };
             if code != 0 && code != 1 {
                 out.violations.push(viol("C12", "exit_status_not_0_or_1", format!("wiring {}: exit {}; stderr: {}", k, code, stderr.chars().take(200).collect::<String>())));
             }
@@ -375,6 +448,8 @@ impl Family for B1 {
                         }
                         if !present.is_empty() {
                             out.violations.push(viol("C12", "wrong_sender_named", format!("wiring {}: sender is not in the keyring, yet {:?} is named", k, present)));
+                            // the named party's private key took no part in creating this file
+                            out.violations.push(viol("C05", "cli_names_sender_without_its_key", format!("wiring {}: the file was made by a key that is not in the keyring, yet it is reported as coming from {:?}", k, present)));
                         }
                         report = format!("unknown:{}", stderr.contains(&enc));
                     }
